@@ -461,6 +461,13 @@ func run(r *enumx.Run, replay *enumx.ReplayCase) {
 			}
 			return
 		}
+		var mcase ManyCase
+		if err := json.Unmarshal(replay.Case, &mcase); err == nil && mcase.Mode == "many" {
+			if key, msg := evalMany(&mcase); key != "" {
+				r.Violation(key, msg, &mcase)
+			}
+			return
+		}
 		var c caseT
 		if err := json.Unmarshal(replay.Case, &c); err != nil {
 			panic(err)
@@ -471,11 +478,12 @@ func run(r *enumx.Run, replay *enumx.ReplayCase) {
 		return
 	}
 	runBoundary(r)
+	runMany(r)
 	depth, treeDepth := 8, 5
 	if r.Thorough() {
 		depth, treeDepth = 16, 6
 	}
-	r.Rule(fmt.Sprintf("explicit-state BFS over operation histories of the real ttlcache.Cache[int] (real haxmap, k8s FakeClock, CleanupInterval 1h so the periodic cleaner never fires) for MaxTTL in {0,2}: alphabet of %d operations Set(a|b, fresh value, ttl 1|2|3 s), Get(a|b), Delete(a|b), Cleanup, Reset, Advance(0.5|1|2.5 s); all histories of length <= %d modulo the canonical key (reference: per key present?, age rank of the value, remaining life; real object: per key physically absent / value as expected / stale, exp-now); successors by replaying the shortest history on a fresh cache plus one operation, then Get of every key compared with the reference, then Stop must return. Cross-check: the UNMERGED tree of all %d^%d histories per MaxTTL on one cache each, every key observed after every operation; the set of canonical states it reaches (with their depths) must equal the BFS set up to that depth. Before that, the boundary-TTL family (boundary_test.go): one Set with a TTL from a 25-value boundary set (1 s .. math.MaxInt64 s) under 8 MaxTTL values, a boundary clock advance, then Get / Cleanup+Get / periodic tick+Get, judged by integer arithmetic (live iff floor(elapsed/1s) < min(ttl, MaxTTL)). evaluations = operations executed on a real cache and compared; distinct non-trivial = executed in a state in which the reference holds at least one entry, or creating one, counted once per distinct (canonical state, operation) pair in the BFS and once per distinct history prefix in the tree.", len(alphabet), depth, len(alphabet), treeDepth))
+	r.Rule(fmt.Sprintf("explicit-state BFS over operation histories of the real ttlcache.Cache[int] (real haxmap, k8s FakeClock, CleanupInterval 1h so the periodic cleaner never fires) for MaxTTL in {0,2}: alphabet of %d operations Set(a|b, fresh value, ttl 1|2|3 s), Get(a|b), Delete(a|b), Cleanup, Reset, Advance(0.5|1|2.5 s); all histories of length <= %d modulo the canonical key (reference: per key present?, age rank of the value, remaining life; real object: per key physically absent / value as expected / stale, exp-now); successors by replaying the shortest history on a fresh cache plus one operation, then Get of every key compared with the reference, then Stop must return. Cross-check: the UNMERGED tree of all %d^%d histories per MaxTTL on one cache each, every key observed after every operation; the set of canonical states it reaches (with their depths) must equal the BFS set up to that depth. Before that, the boundary-TTL family (boundary_test.go): one Set with a TTL from a 25-value boundary set (1 s .. math.MaxInt64 s) under 8 MaxTTL values, a boundary clock advance, then Get / Cleanup+Get / periodic tick+Get, judged by integer arithmetic (live iff floor(elapsed/1s) < min(ttl, MaxTTL)). Then the many-keys family (many_test.go): N keys around every power of two, Reset / Cleanup / a periodic tick, every key read back. evaluations = operations executed on a real cache and compared; distinct non-trivial = executed in a state in which the reference holds at least one entry, or creating one, counted once per distinct (canonical state, operation) pair in the BFS and once per distinct history prefix in the tree.", len(alphabet), depth, len(alphabet), treeDepth))
 	p := &pool{r}
 	seen := map[string]int{}
 	var frontier []state
